@@ -41,7 +41,6 @@ class Maintainer(Asset):
 
         self._capacity = capacity
         self._utilization = 0
-        self._env = None
         self._request_queue = []
         self._active_requests = []
 
